@@ -488,6 +488,11 @@ func judgeC09(t *testing.T, sc c09Scenario) verdict {
 		if f.Comp == "rpmRead" {
 			statelessOnly = false
 		}
+		if f.Comp == "sensorRead" && f.Kind == "range" {
+			// a well-formed, absurdly large reading is a reading: it enters the moving average (C08)
+			// and legitimately keeps the fan faster for a while - no "recovers to the twin" claim
+			statelessOnly = false
+		}
 	}
 	if out.Stopped {
 		// handed back: original mode (not manual) or full speed
